@@ -257,3 +257,50 @@ def timeout_under_lock_runs(ctx, n):
         else:
             ok += 1
     return fails, {"tcp_timeout_under_lock_runs": len(cases), "tcp_timeout_under_lock_blocked": blocked, "tcp_timeout_under_lock_ok": ok}
+
+
+def limit_under_lock_runs(ctx, n):
+    """connection A's receiver does not read (its link is blocked), a toxic request for that direction waits on A and holds the lock of the
+    proxy's toxic collection; on connection B a limit_data toxic of the other direction reaches its limit meanwhile: B's receiver gets
+    exactly the first N bytes and then the end of the stream at once - not whenever the other request gets through"""
+    rng = C.Rng(ctx.seed).fork("C11lock")
+    cases = []
+    for i in range(n):
+        g = i % 6
+        b = port_base(g)
+        up, px = b + 8, b + 9
+        N = rng.choice([1, 100, 250])
+        ops = [{"op": "upstream", "id": "u", "port": up, "mode": "manual"},
+               api("POST", "/proxies", {"name": "p", "listen": "127.0.0.1:%d" % px, "upstream": "127.0.0.1:%d" % up}),
+               {"op": "dial", "id": "a", "addr": "127.0.0.1:%d" % px}, {"op": "upaccept", "id": "sa", "up": "u", "ms": 1000},
+               {"op": "dial", "id": "b", "addr": "127.0.0.1:%d" % px}, {"op": "upaccept", "id": "sb", "up": "u", "ms": 1000},
+               {"op": "flood", "id": "sa"}, {"op": "sleep", "ms": 400},
+               dict(api("POST", "/proxies/p/toxics", {"type": "limit_data", "name": "t", "stream": "upstream", "attributes": {"bytes": N}}), ms=3000)]
+        mark = len(ops)
+        ops += [dict(api("POST", "/proxies/p/toxics", {"type": rng.choice(["latency", "noop"]), "name": "l", "stream": "downstream", "attributes": {}}), ms=250),
+                {"op": "send", "id": "b", "n": N + 200},
+                {"op": "recv", "id": "sb", "up": "b", "n": N + 200, "ms": 1200}]
+        cases.append({"ops": ops, "group": g, "N": N, "mark": mark})
+    results = run_tcp(ctx, cases, "c11l")
+    fails, ok, blocked = [], 0, 0
+    for c, r in zip(cases, results):
+        if env_broken(r):
+            continue
+        rp = {"kind": "failing-input", "tcp": True, "case": c, "observed": r}
+        if isinstance(r, dict):
+            fails.append(("crash", "process crashed in a limit-under-lock scenario", rp))
+            continue
+        if r[c["mark"] - 1].get("status") != 200:
+            continue
+        if r[c["mark"]].get("status") != -1:
+            continue                                    # the second request was not held up (buffers did not fill): nothing to judge
+        blocked += 1
+        last = r[-1]
+        if last.get("got") != c["N"]:
+            fails.append(("limit-bytes", "limit_data %d: the receiver got %s bytes" % (c["N"], last.get("got")), rp))
+        elif last.get("end") != "eof":
+            fails.append(("limit-close-waits-for-lock", "limit_data %d: the receiver got the %d bytes but the connection was still open %d ms later (%s), while another toxic "
+                          "request on the proxy was waiting for a connection whose receiver does not read" % (c["N"], c["N"], last.get("took_ms", 0), last.get("end")), rp))
+        else:
+            ok += 1
+    return fails, {"tcp_limit_under_lock_runs": len(cases), "tcp_limit_under_lock_blocked": blocked, "tcp_limit_under_lock_ok": ok}
